@@ -2,6 +2,7 @@ package main
 
 func controlsC16() []Control {
 	return []Control{
+		{Name: "fold locks a copy of the engine (value receiver)", Expect: "R1", Mutate: replaceIn("(*tableEngine).PlayerFold", "func (te *tableEngine) PlayerFold(", "func (te tableEngine) PlayerFold(", 0)},
 		{Name: "current hand state published by the queue consumer", Expect: "R5", Mutate: replaceBoth("(*game).updateGameState", "\tg.gs = state\n", "", "\tg.incomingStates <- state\n", "\tg.incomingStates <- state\n\tgo func() { g.gs = state }()\n")},
 		{Name: "wager result applied to the hand in the background", Expect: "R5", Mutate: replaceIn("(*game).Call", "\tg.updateGameState(gs)\n", "\tgo g.updateGameState(gs)\n", 0)},
 		{Name: "PlayersLeave without the engine mutex", Expect: "R2", Mutate: replaceIn("(*tableEngine).PlayersLeave", "te.lock.Lock()\n\tdefer te.lock.Unlock()\n", "", 0)},
